@@ -11,6 +11,7 @@ import (
 	"verif/internal/model"
 	"verif/internal/pool"
 	"verif/internal/space"
+	"verifrt"
 )
 
 // ScMethod is one declared method of a scenario's converter interface.
@@ -43,13 +44,41 @@ type Scenario struct {
 	CtxIdx []int
 	TgtIdx int
 	Global   []string          // settings given on the command line (-g)
+	// Variables: the converter is a goverter:variables block (function variable named VarName) instead of an interface
+	Variables bool
+	NoRuntime bool // judged at generation level only
+	// Forced: verdict decided by the scenario builder (signature-level rejects) instead of model.Judge
+	Forced       bool
+	ForcedReject string // reason; "" with Forced=true means the builder vouches for success and Judge provides the plan
+	// RawSource replaces the generated interface source entirely (comment layouts, unusual declarations)
+	RawSource string
+	FnExprOverride string
+	AssertOverride string
 	NeedConv bool              // pass the converter instance to the interpreter
 	Files    map[string]string // extra files of the scratch module (other packages)
 	Imports  []string          // extra package keys imported by conv.go
 }
 
 func (sc *Scenario) ifaceSource() string {
+	if sc.RawSource != "" {
+		return sc.RawSource
+	}
 	var b strings.Builder
+	if sc.Variables {
+		b.WriteString("// goverter:variables\n")
+		for _, l := range sc.ConvLines {
+			b.WriteString("// goverter:" + l + "\n")
+		}
+		b.WriteString("var (\n")
+		for _, m := range sc.Methods {
+			for _, l := range m.Lines {
+				b.WriteString("\t// goverter:" + l + "\n")
+			}
+			fmt.Fprintf(&b, "\t%s func(%s) %s\n", m.Name, m.Params, m.Result)
+		}
+		b.WriteString(")\n")
+		return b.String()
+	}
 	b.WriteString("// goverter:converter\n")
 	for _, l := range sc.ConvLines {
 		b.WriteString("// goverter:" + l + "\n")
@@ -174,17 +203,25 @@ func scenarioGroup(w *pool.W, scs []*Scenario, tier string, runtime bool) error 
 	declSeen := map[string]bool{}
 	for _, sc := range scs {
 		rc, ok := sess.Raws[sc.ID]
+		if sc.Variables {
+			rc, ok = sess.FindVar(sc.testMethod().Name)
+		}
 		if !ok {
 			return fmt.Errorf("scenario %s not found by ParseDocs", sc.ID)
 		}
 		tm := sc.testMethod()
-		res := model.Judge(sc.Conv, tm.M)
+		var res *model.Result
+		if sc.Forced && sc.ForcedReject != "" {
+			res = &model.Result{Verdict: model.Reject, Reasons: []string{"reject: " + sc.ForcedReject}, Codes: []string{"signature:" + sc.ForcedReject}, Pkgs: map[string]bool{}, WrapPkgs: map[string]bool{}, Plan: &rt.PlanSet{}}
+		} else {
+			res = model.Judge(sc.Conv, tm.M)
+		}
 		// all declared methods must be judged: a failing sibling fails the converter
 		verdict := res.Verdict
 		reasons := res.Reasons
 		codes := res.Codes
 		for _, m := range sc.Methods {
-			if m == tm {
+			if m == tm || (sc.Forced && sc.ForcedReject != "") {
 				continue
 			}
 			r2 := model.Judge(sc.Conv, m.M)
@@ -197,6 +234,10 @@ func scenarioGroup(w *pool.W, scs []*Scenario, tier string, runtime bool) error 
 				res.Pkgs[p] = true
 			}
 			res.NeedFmt = res.NeedFmt || r2.NeedFmt
+			res.WrapFmt = res.WrapFmt || r2.WrapFmt
+			for p := range r2.WrapPkgs {
+				res.WrapPkgs[p] = true
+			}
 		}
 		if sc.Unspec != "" && verdict == model.OK {
 			verdict = model.Unspec
@@ -229,7 +270,7 @@ func scenarioGroup(w *pool.W, scs []*Scenario, tier string, runtime bool) error 
 			}
 		}
 		w.Rep(pool.Rep{Class: verdict.String() + "/" + out.Kind.String() + "/" + site, Case: desc, Kind: out.Kind.String(), Hash: filesHash(out.Files)})
-		if !runtime || out.Kind != drive.Files || verdict == model.Reject || res.Plan.Root == nil {
+		if !runtime || sc.NoRuntime || out.Kind != drive.Files || verdict == model.Reject || res.Plan.Root == nil {
 			continue
 		}
 		for _, d := range sc.Decls {
@@ -241,7 +282,13 @@ func scenarioGroup(w *pool.W, scs []*Scenario, tier string, runtime bool) error 
 		}
 		meta := desc
 		meta["shape"] = fmt.Sprint(sc.Desc["class"])
-		meta["need_pkgs"] = needPkgs(res)
+		meta["need_pkgs"] = needPkgsFor(res, sc.Conv.OutPkg)
+		meta["optional_pkgs"] = optionalPkgs(res)
+		if sc.Variables {
+			meta["out_file"] = "conv/conv.gen.go"
+		} else {
+			meta["out_file"] = "conv/generated/generated.go"
+		}
 		meta["features"] = planFeatures(res.Plan)
 		meta["prop_val"] = sc.PropVal
 		mode := sc.Mode
@@ -250,8 +297,8 @@ func scenarioGroup(w *pool.W, scs []*Scenario, tier string, runtime bool) error 
 		}
 		batch.Cases = append(batch.Cases, &RtCase{
 			ID: sc.ID, Iface: sc.ifaceSource() + "\n" + sc.FuncsSrc,
-			FnExpr: fmt.Sprintf("(&generated.%sImpl{}).%s", sc.ID, tm.Name),
-			Assert: fmt.Sprintf("var _ conv.%s = &generated.%sImpl{}", sc.ID, sc.ID),
+			FnExpr: fnExprOf(sc, tm),
+			Assert: assertOf(sc),
 			Plan:   res.Plan, Mode: mode, Funcs: sc.Funcs, Meta: meta, SrcIdx: sc.SrcIdx, CtxIdx: sc.CtxIdx, TgtIdx: sc.TgtIdx,
 			Conv: convExpr(sc),
 		})
@@ -296,7 +343,30 @@ func sortedSet(m map[string]bool) []string {
 	return k
 }
 
+func fnExprOf(sc *Scenario, tm *ScMethod) string {
+	switch {
+	case sc.FnExprOverride != "":
+		return sc.FnExprOverride
+	case sc.Variables:
+		return "conv." + tm.Name
+	}
+	return fmt.Sprintf("(&generated.%sImpl{}).%s", sc.ID, tm.Name)
+}
+
+func assertOf(sc *Scenario) string {
+	switch {
+	case sc.AssertOverride != "":
+		return sc.AssertOverride
+	case sc.Variables:
+		return ""
+	}
+	return fmt.Sprintf("var _ conv.%s = &generated.%sImpl{}", sc.ID, sc.ID)
+}
+
 func convExpr(sc *Scenario) string {
+	if sc.Variables {
+		return ""
+	}
 	if sc.NeedConv {
 		return "&generated." + sc.ID + "Impl{}"
 	}
@@ -330,7 +400,7 @@ func convHeaderWith(imps []string) string {
 	for _, i := range imps {
 		fmt.Fprintf(&b, "\t%s\n", space.ImportSpec(i))
 	}
-	b.WriteString(")\n\nvar (\n\t_ unsafe.Pointer\n\t_ in.MyInt\n\t_ out.MyInt\n\t_ = fmt.Sprint\n)\n" + boomSource + "\n")
+	b.WriteString(")\n\nvar (\n\t_ unsafe.Pointer\n\t_ in.MyInt\n\t_ out.MyInt\n\t_ = fmt.Sprint\n)\n" + boomSource + c14Support + "\n")
 	return b.String()
 }
 
